@@ -56,6 +56,7 @@ var commands = map[string]command{
 	"vdrapi-replay":       vdrapiReplay,
 	"identifiers-replay":  identifiersReplay,
 	"clientapi-replay":    clientapiReplay,
+	"clientdoc-replay":    clientdocReplay,
 	"sizelimits-replay":   sizeLimitsReplay,
 	"clientsend-replay":   clientsendReplay,
 	"patcharray-replay":   patcharrayReplay,
